@@ -332,6 +332,8 @@ func main() {
 		"part 2 PRNG graphs with 5..12 declarations incl. methods, self references, package/import clauses and statements between declaration runs; "+
 		"struct types (declared, or anonymous inside initialisers and function bodies) get int fields NAMED LIKE DECLARATIONS of the input and keyed struct literals use them as keys (not references); "+
 		"identifier keys of map/array literals are references (only generated next to another reference to the same name: known finding C17-3); the reference analysis asks go/types whether a key is a field name; "+
+		"part 4 PRNG programs of 7..12 names whose var / const specs declare 1..3 names each (one initialiser per name with its own references, one multi-valued call, or none; const groups inheriting type and initialisers) "+
+		"with an explicit type EXPRESSION over 1..4 declared types incl. repeated ones (map[K]K, func(X, Y) Z, struct, [C]T ...), grouped var ( ... ) / const ( ... ) declarations; "+
 		"part 3 corpus. Excluded classes (known findings): a local/parameter named like a declaration (F1); a reference from scope depth>=2 "+
 		"(function declaration signature/body, nested block or struct) to a name declared earlier in the text (F2). "+
 		"non-trivial = at least one dependency edge; distinct by SHA-256 of the source. Every input is sorted 5x (quick) / 20x (thorough).")
@@ -432,6 +434,15 @@ func main() {
 		}
 		src = decorate(src, g, rng)
 		r.run(input{Src: src, Origin: "random"}, true)
+	}
+	// part 4: specs declaring several names, with type expressions over several declared types (spec.go); own PRNG stream
+	nSpec := 600
+	if a.Thorough() {
+		nSpec = 12000
+	}
+	srng := vh.NewRng(a.Seed*104729 + 17)
+	for i := 0; i < nSpec; i++ {
+		r.run(input{Src: genSpecs(srng.Fork()), Origin: "multispec"}, true)
 	}
 	r.cw.Close()
 	rep.Extra["exhaustive_inputs"] = nExh
